@@ -39,6 +39,8 @@ func Spec() *run.Spec {
 			"stl.ReadMesh, stl.Read and stl.Write; non-trivial iff n ≥ 2 and some vertex is shared by ≥ 2 corners. " +
 			"bytes-rt: one case = one well-formed STL byte string from the reference encoder (random header, n = 0…300 (thorough …3000) records, normals zero/geometric/random-unit/non-unit/mixed, " +
 			"random attribute words, degenerate facets); non-trivial iff n ≥ 2 and (some attribute word ≠ 0 or some normal ≠ 0). " +
+			"large: case i runs the mesh-rt oracle (i even) or the bytes-rt oracle (i odd) on n = largeSizes[(i/2) mod 10] triangles: 4095, 4096, 4097, 5000, 8191, 8192, 8193, 10000, 16385 or a random count in 20000…70000 " +
+			"(around typical batch / buffer sizes); every record is compared in order, so a permuted, overwritten or zero tail is seen. Both ordinary phases also draw 1023/1024/1025/2047/2048/2049. " +
 			"Distinctness = phase / size bucket / index pattern / normal kind / value class / extras.",
 		Assumptions: []string{
 			"positions are finite and |x| < 1e30 so that float32 rounding never overflows (NaN/Inf are out of reach)",
@@ -58,6 +60,8 @@ func Spec() *run.Spec {
 			"normal_kinds":                 4,
 			"foreign_normal_kinds":         5,
 			"zero_triangle_cases":          20,
+			"large_sizes":                  9,
+			"large_records_compared":       150000,
 		},
 		Phases: []run.Phase{
 			{Name: "mesh-rt", Cases: func(t string) int {
@@ -72,6 +76,12 @@ func Spec() *run.Spec {
 				}
 				return 6000
 			}, Run: bytesRT, Batch: 100, CPUBudgetS: 20},
+			{Name: "large", Cases: func(t string) int {
+				if t == "thorough" {
+					return 200
+				}
+				return 20
+			}, Run: large, Batch: 2, CPUBudgetS: 120},
 		},
 	}
 }
@@ -106,6 +116,9 @@ func value(r *rand.Rand, class string) float64 {
 	return r.Float64()
 }
 
+// boundarySizes: triangle counts around typical batch / buffer sizes.
+var boundarySizes = []int{1023, 1024, 1025, 2047, 2048, 2049}
+
 func triCount(r *rand.Rand, tier string) int {
 	switch p := r.Intn(100); {
 	case p < 8:
@@ -114,10 +127,12 @@ func triCount(r *rand.Rand, tier string) int {
 		return 1 + r.Intn(8)
 	case p < 78:
 		return 9 + r.Intn(56)
-	case p < 95:
+	case p < 93:
 		return 65 + r.Intn(336)
-	default:
+	case p < 97:
 		return 401 + r.Intn(1600)
+	default:
+		return boundarySizes[r.Intn(len(boundarySizes))]
 	}
 }
 
@@ -149,8 +164,14 @@ func bucket(n int) int {
 		return 128
 	case n <= 512:
 		return 512
+	case n <= 2049:
+		return 2048
+	case n <= 8193:
+		return 8192
+	case n <= 32768:
+		return 32768
 	}
-	return 2048
+	return 131072
 }
 
 var patterns = []string{"unwelded", "unwelded-perm", "grid", "fan", "welded-random", "unreferenced", "repeated"}
@@ -164,8 +185,12 @@ func toVec3(a []v3) []vector3.Float64 {
 	return out
 }
 
-func genMesh(r *rand.Rand, tier string) (modeling.Mesh, *meshModel) {
+// genMesh draws a mesh; forceN ≥ 0 fixes the number of triangles.
+func genMesh(r *rand.Rand, tier string, forceN int) (modeling.Mesh, *meshModel) {
 	mm := &meshModel{n: triCount(r, tier)}
+	if forceN >= 0 {
+		mm.n = forceN
+	}
 	mm.class = valueClasses[r.Intn(len(valueClasses))]
 	mm.normals = normalKinds[r.Intn(len(normalKinds))]
 	n := mm.n
@@ -488,9 +513,11 @@ func meshWitness(mm *meshModel) any {
 	return w
 }
 
-func meshRT(c *run.Ctx) run.Result {
+func meshRT(c *run.Ctx) run.Result { return meshRTn(c, -1) }
+
+func meshRTn(c *run.Ctx, forceN int) run.Result {
 	var res run.Result
-	m, mm := genMesh(c.Rng, c.Tier)
+	m, mm := genMesh(c.Rng, c.Tier, forceN)
 	n := mm.n
 	res.Sig = mm.sig()
 	res.Nontrivial = n >= 2 && mm.shared
@@ -738,7 +765,8 @@ func unitF32(r *rand.Rand) refVec {
 	}
 }
 
-func genFile(r *rand.Rand, tier string) (*refFile, map[string]any) {
+// genFile draws a well-formed file model; forceN ≥ 0 fixes the number of records.
+func genFile(r *rand.Rand, tier string, forceN int) (*refFile, map[string]any) {
 	f := &refFile{Header: make([]byte, 80)}
 	hk := []string{"zero", "random", "solid-text", "spaces", "color-tag"}[r.Intn(5)]
 	switch hk {
@@ -767,6 +795,12 @@ func genFile(r *rand.Rand, tier string) (*refFile, map[string]any) {
 	}
 	if tier == "thorough" && r.Intn(40) == 0 {
 		n = 300 + r.Intn(2700)
+	}
+	if r.Intn(50) == 0 {
+		n = boundarySizes[r.Intn(len(boundarySizes))]
+	}
+	if forceN >= 0 {
+		n = forceN
 	}
 	class := valueClasses[r.Intn(len(valueClasses))]
 	nk := foreignNormalKinds[r.Intn(len(foreignNormalKinds))]
@@ -817,9 +851,11 @@ func genFile(r *rand.Rand, tier string) (*refFile, map[string]any) {
 	return f, desc
 }
 
-func bytesRT(c *run.Ctx) run.Result {
+func bytesRT(c *run.Ctx) run.Result { return bytesRTn(c, -1) }
+
+func bytesRTn(c *run.Ctx, forceN int) run.Result {
 	var res run.Result
-	f, desc := genFile(c.Rng, c.Tier)
+	f, desc := genFile(c.Rng, c.Tier, forceN)
 	n := len(f.Records)
 	b := encodeSTL(f)
 	res.Sig = fmt.Sprintf("bytes/n%d/%s/%s/%s/%s", bucket(n), desc["normals"], desc["class"], desc["attr"], desc["header"])
@@ -961,5 +997,32 @@ func bytesRT(c *run.Ctx) run.Result {
 		}
 	}
 	res.Count("mesh_path_vertices_reproduced", int64(3*n))
+	return res
+}
+
+// --- phase large -----------------------------------------------------------------
+
+// largeSizes: counts around typical batch / buffer sizes (1024·k, 4096, 8192, 16384,
+// 65536 bytes or records); 0 stands for a random count in 20000…70000.
+var largeSizes = []int{4095, 4096, 4097, 5000, 8191, 8192, 8193, 10000, 16385, 0}
+
+func large(c *run.Ctx) run.Result {
+	n := largeSizes[(c.Case/2)%len(largeSizes)]
+	if n == 0 {
+		n = 20000 + c.Rng.Intn(50001)
+	}
+	var res run.Result
+	if c.Case%2 == 0 {
+		res = meshRTn(c, n)
+		res.SetAdd("large_directions", "mesh→WriteMesh→Read/ReadMesh")
+	} else {
+		res = bytesRTn(c, n)
+		res.SetAdd("large_directions", "bytes→Read→Write")
+	}
+	res.Sig = "large/" + res.Sig
+	res.SetAdd("large_sizes", fmt.Sprint(n))
+	if len(res.Violations) == 0 {
+		res.Count("large_records_compared", int64(n))
+	}
 	return res
 }
